@@ -42,7 +42,7 @@ EXPLANATION = (
     "monotonicity in the threshold (consequences)."
 )
 # obligations added during the build phase (seeding rounds, twins, mutation analysis)
-ADDED_IN_BUILD = " Also: the interval generator is decided for comprehensions or appends in an inner loop; its arguments are bound by NAME at the driver's call site and every role (n, min length, max length, growth factor) must receive the driver's own quantity (none left to a default). The selector is discovered also when it receives subscripted tables; a selection that receives filtered tables violates WIRING selector-arguments."
+ADDED_IN_BUILD = " Also: the interval generator is decided for comprehensions or appends in an inner loop; its arguments are bound by NAME at the driver's call site and every role (n, min length, max length, growth factor) must receive the driver's own quantity (none left to a default). The selector is discovered also when it receives subscripted tables; a selection that receives filtered tables violates WIRING selector-arguments. zeroing (F-30): a removed interval gets -inf or the threshold itself - 0.0 still exceeds a slightly negative tuned threshold and the loop never ends."
 EXPLANATION = EXPLANATION + ADDED_IN_BUILD
 
 ASSUMPTIONS = [
